@@ -336,6 +336,29 @@ def format (x : F64) : Bytes :=
     let e := dp - 1
     if e < -4 || 6 ≤ e then fmtE x.sign digs dp else fmtF x.sign digs dp
 
+/-- ECMAScript's exponent layout: d.ddde±X, no leading zero in the exponent -/
+def fmtEJS (neg : Bool) (digs : Bytes) (dp : Int) : Bytes :=
+  let e := dp - 1
+  (if neg then [45] else []) ++
+  (match digs with
+   | [] => [48]
+   | [d] => [d]
+   | d :: r => d :: 46 :: r) ++
+  [101, if e < 0 then 45 else 43] ++ natDigits e.natAbs
+
+/-- `data.Float.String()` since /repo "floats print as JavaScript prints them": ECMAScript
+    Number::toString — positional for 1e-6 ≤ |x| < 1e21, exponent form otherwise, zero unsigned -/
+def formatJS (x : F64) : Bytes :=
+  if x.isNaN then [78, 97, 78]
+  else if x.isInf then (if x.sign then [45, 73, 110, 102, 105, 110, 105, 116, 121] else [73, 110, 102, 105, 110, 105, 116, 121])
+  else if x.isZero then [48]
+  else
+    let (c, k) := shortest x
+    let digs := natDigits c
+    let dp : Int := (digs.length : Int) + k
+    let e := dp - 1
+    if e < -6 || 21 ≤ e then fmtEJS x.sign digs dp else fmtF x.sign digs dp
+
 /-! ### laws used by the theorems (proved on the concrete definitions) -/
 
 theorem eq_comm (a b : F64) : eq a b = eq b a := by
